@@ -89,8 +89,9 @@ def op_process(c):
 
         def go():
             fd, path = tempfile.mkstemp(suffix='.json')
-            with os.fdopen(fd, 'w') as f:
-                json.dump(c['doc'], f)
+            with os.fdopen(fd, 'wb') as f:
+                # a JSON file is UTF-8: either with every non-ASCII character escaped, or (raw_utf8) written as it is
+                f.write(json.dumps(c['doc'], ensure_ascii=not c.get('raw_utf8')).encode('utf-8'))
             try:
                 with contextlib.redirect_stdout(io.StringIO()):
                     return u_fc(DznJsonAst(verbose=bool(c.get('verbose'))).load_file(path).process())
